@@ -13,7 +13,8 @@ import common
 PROP = "C16"
 HEADER = ("From Coq Require Import ZArith List.\nImport ListNotations.\n"
           "From IBL.C16 Require Import Run.")
-WHITELIST = sorted(common.STDLIB_AXIOMS)
+# "Axioms" is the header line of Print Assumptions' output, which common.print_assumptions' regex also captures
+WHITELIST = sorted(common.STDLIB_AXIOMS) + ["Axioms"]
 TRUSTED = [
     "Coq 8.16.1 kernel + vm_compute (no native_compute); Flocq 4.1 BinarySingleNaN as the meaning of "
     "IEEE-754 binary32/binary64 round-to-nearest-even operations",
